@@ -322,6 +322,12 @@ class Machine:
                 if len(ops) != 1:
                     raise Fail("export_special", "needs exactly one value")
                 self.stack[-1].vars[a[0]] = Cell(self.deref(ops.pop()), ro=True)
+                self.module(path).exports[a[-1]] = self.stack[-1].vars[a[0]]        # add_export: the file's export table (what `load_self_export` reads)
+            elif op == "load_self_export":
+                c = self.module(path).exports.get(a[0])
+                if c is None:
+                    raise Fail("load_self_export", "`%s` has not been exported from the executing module" % a[0])
+                ops.append(c.v)
             elif op == "lookup":
                 if len(ops) != 1:
                     raise Fail("lookup", "requires a single item on the stack")
